@@ -309,7 +309,8 @@ def run_mne(ctx):
 
 def run_design(ctx):
     rng = ctx.rng
-    tr = float(gen.pick(rng, [1.0, 1.5, 2.0]))
+    # repetition times on and off the 100 ms grid of the canonical kernel, several of them within one 100 ms step
+    tr = float(gen.pick(rng, [1.0, 1.5, 1.52, 2.0, 2.02, 2.05, 0.72, 0.75]))
     n_cond = int(rng.integers(2, 5))
     names = [f'cond{c}' for c in rng.permutation(6)[:n_cond]]
     dur = float(gen.pick(rng, [2.0, 4.0, 6.0]))
@@ -356,12 +357,34 @@ def run_design(ctx):
             ctx.fail('design_matrix', dict(sig, what='column_order'), f'column {c} does not follow the blocks of condition '
                      f'{name!r} (first-appearance order {first}); correlations {np.round(corr, 2).tolist()}', wit())
             return
+    # column content: the block response (canonical kernel, tabulated at 100 ms in rsatoolbox.io.hrf -- data, not logic --
+    # convolved with the block, resampled at THIS run's TR with a shape-preserving cubic, peak-normalised) placed at
+    # every onset of the condition, then centred and range-normalised
+    from rsatoolbox.io.hrf import HRF
+    from scipy.interpolate import PchipInterpolator
+    blk = np.convolve(np.asarray(HRF, dtype=float), np.ones(int(dur / 0.1)))
+    t_blk = np.arange(0, int((blk.size - 1) * 0.1), tr)
+    resp = PchipInterpolator(np.arange(blk.size) * 0.1, blk)(t_blk)
+    resp = resp / resp.max()
+    t_resp = tr * np.arange(resp.size)
+    for c, name in enumerate(first):
+        col = np.zeros(n_vols)
+        for o in onsets[[i for i, x in enumerate(order) if x == name]]:
+            col += np.nan_to_num(PchipInterpolator(o + t_resp, resp, extrapolate=False)(t))
+        col = (col - col.mean()) / (col.max() - col.min())
+        ctx.count('design_columns_recomputed')
+        # (tolerance 2e-3 of the unit range: a volume that falls on the very end of a response's support is inside or
+        # outside it depending on the last bit, which moves that sample by the size of the kernel's tail, ~1e-4)
+        if not close(dm[:, c], col, 0, 2e-3):
+            ctx.fail('design_matrix', dict(sig, what='column_content'), f'column of condition {name!r} is not the block '
+                     f'response at TR {tr} placed at its onsets (max deviation {maxdiff(dm[:, c], col)})', wit())
+            return
     # shifting all onsets by whole TRs shifts the predictors by the same number of volumes
     k = int(rng.integers(1, 4))
     ev2 = events.copy()
     ev2['onset'] = ev2['onset'] + k * tr
     dm2, _, _ = make_design_matrix(ev2, tr, n_vols, conf)
-    if not close(dm2[k:, :n_cond], dm[:-k, :n_cond], 1e-4, 1e-4):   # pchip re-interpolation differs by ~1e-5
+    if not close(dm2[k:, :n_cond], dm[:-k, :n_cond], 0, 2e-3):   # see above (1.7e-4 observed at TR 2.05)
         ctx.fail('design_matrix', dict(sig, what='shift'), f'shifting the onsets by {k} TR does not shift the predictors by '
                  f'{k} volumes (max deviation {maxdiff(dm2[k:, :n_cond], dm[:-k, :n_cond])})', wit(shift=k))
 
